@@ -60,7 +60,7 @@ def r1(ctx: Ctx) -> None:
 @rule("C08.R2", "market-price refresh: mid = average of both best quotes or None; price = last trade, else mid, else unchanged; untouched while not running", "T6 decision table (16 worlds)", floor=1)
 def r2(ctx: Ctx) -> None:
     f = ctx.func(UMP)
-    paths = ctx.paths(UMP)
+    paths = ctx.paths(UMP, inline=("Market.get_best_buy_price", "Market.get_best_sell_price"))
     now = ("attr", ("sym", "self"), "time")
     last_t = ("sub", ("attr", ("sym", "self"), "_last_executed_prices"), now)
     cases: List[Case] = []
